@@ -58,7 +58,7 @@ def seed_honoured(ctx):
     driver derives its key from options['seed'] and the rank only."""
     from .c16 import option_defaults_of
     rd = ctx.p.func("mpi_jax._prep_afqmc")
-    ok = "seed" in option_defaults_of(rd)
+    ok = "seed" in option_defaults_of(rd, ctx.p)
     ctx.ob("DET-1", "_prep_afqmc: a user-supplied options['seed'] is kept for every value", ok,
            "options['seed'] = options.get('seed', <random default>)" if ok else
            "the seed is not defaulted with get / setdefault / `not in`: a falsy user seed (0) is replaced by a random one", rd)
